@@ -147,7 +147,9 @@ def run_in_fresh_loop(coro_fn: Any) -> Any:
             error = f"SystemExit({e.code}) escaped"
         except Exception as e:
             import traceback
-            error = "".join(traceback.format_exception(type(e), e, e.__traceback__))[-3000:]
+            lib = [f for f in traceback.extract_tb(e.__traceback__) if "/asyncio_taskpool/" in f.filename]
+            text = "".join(traceback.format_exception(type(e), e, e.__traceback__))[-3000:]
+            error = ("LIB:" + f"{type(e).__name__}@{lib[-1].name}: {e}"[:200]) if lib else text
     finally:
         try:
             for _ in range(30):
